@@ -202,15 +202,9 @@ fn child_decls(files: &BTreeMap<String, String>, file: &str) -> String {
     names.iter().map(|n| format!("pub mod {n};\n")).collect()
 }
 
-fn run_batch(dir: &Path, t: Target, cases: &[(usize, &RCase)]) -> anyhow::Result<(BTreeMap<usize, Vec<Diag>>, Vec<String>)> {
-    let _ = std::fs::remove_dir_all(dir);
-    std::fs::create_dir_all(dir)?;
+/// Writes the case files below `dir` and returns the module declarations for the crate root.
+pub fn write_case_tree(dir: &Path, t: Target, cases: &[(usize, &RCase)]) -> anyhow::Result<String> {
     let mut lib = String::new();
-    if t.no_std() {
-        lib.push_str("#![no_std]\n#![feature(abi_vectorcall)]\n#![allow(warnings)]\nextern crate core as std;\n");
-    } else {
-        lib.push_str("#![allow(warnings)]\n");
-    }
     let shared: BTreeMap<String, String> = cases.first().map(|c| c.1.shared.clone()).unwrap_or_default();
     for (_, case) in cases {
         anyhow::ensure!(case.shared == shared, "shared files differ between cases of one batch");
@@ -244,6 +238,19 @@ fn run_batch(dir: &Path, t: Target, cases: &[(usize, &RCase)]) -> anyhow::Result
             std::fs::write(p, text)?;
         }
     }
+    Ok(lib)
+}
+
+fn run_batch(dir: &Path, t: Target, cases: &[(usize, &RCase)]) -> anyhow::Result<(BTreeMap<usize, Vec<Diag>>, Vec<String>)> {
+    let _ = std::fs::remove_dir_all(dir);
+    std::fs::create_dir_all(dir)?;
+    let mut lib = String::new();
+    if t.no_std() {
+        lib.push_str("#![no_std]\n#![feature(abi_vectorcall)]\n#![allow(warnings)]\nextern crate core as std;\n");
+    } else {
+        lib.push_str("#![allow(warnings)]\n");
+    }
+    lib.push_str(&write_case_tree(dir, t, cases)?);
     std::fs::write(dir.join("lib.rs"), lib)?;
     let mut cmd = Command::new("rustc");
     if t.no_std() {
